@@ -336,6 +336,9 @@ func Flush() {
 	if p == "" {
 		return
 	}
+	if os.Getenv("VERIF_STATS_PERPID") != "" { // native fuzzing: coordinator and workers each write their own file
+		p = fmt.Sprintf("%s.%d", p, os.Getpid())
+	}
 	regMu.Lock()
 	defer regMu.Unlock()
 	out := map[string]*Stats{}
